@@ -336,6 +336,7 @@ def run(chk):
     normalised_copy(chk)
     from . import e10
     e10.run_U5(chk, ("yastn",), rule="Z9")
+    mixed_keys(chk)
     # a key whose presence the reader tests is a key whose value the reader restores
     chk.rule("Z10", "every key a reader tests for presence (`k in d`) is also read by it (d[k] / d.get(k)): the stored value is restored, not merely detected", floor=5)
     seen = set()
@@ -350,6 +351,47 @@ def run(chk):
             else:
                 chk.bad("Z10", (r.f, node), f"{r.f.short}: '{k}'", f"{r.f.short}(): the reader tests `'{k}' in {r.dparam}` but never reads `{r.dparam}['{k}']`: "
                         f"whatever was stored under '{k}' is not what is restored (typically a copy-paste slip reading a sibling key instead)")
+
+
+def mixed_keys(chk):
+    """Z11: serialised containers may hold keys of different types -- the site tensors of an MPS are keyed by int, its central block by
+    the tuple `pC` (`self.A[self.pC] = ...`) and to_dict copies the keys of `A` verbatim.  The generic traversals of such dictionaries
+    (split_data_and_meta / combine_data_and_meta) therefore must not order the keys with a bare `sorted(d)`: comparing an int with a
+    tuple raises TypeError, i.e. an MPS with a central block cannot be split at all."""
+    prog = chk.prog
+    chk.rule("Z11", "generic traversals of serialised dictionaries order keys in a way that is defined for keys of mixed types (int sites and tuple central block of an MPS)", floor=2)
+    # evidence (re-validated on every run): a tuple-keyed entry next to int-keyed ones in MpsMpoOBC.A, and to_dict copying the keys
+    obc = prog.module("yastn.tn.mps._mps_obc")
+    central = [n for n in ast.walk(obc.tree) if isinstance(n, ast.Assign) and isinstance(n.targets[0], ast.Subscript)
+               and A.text(n.targets[0].value).endswith(".A") and A.text(n.targets[0].slice).endswith(".pC")]
+    wf = prog.func("yastn.tn.mps._mps_parent", "_MpsMpoParent.to_dict")
+    copies = any(isinstance(n, ast.DictComp) and isinstance(n.key, ast.Name) and A.text(n.generators[0].iter).endswith(".A.items()")
+                 and isinstance(n.generators[0].target, ast.Tuple) and A.text(n.generators[0].target.elts[0]) == n.key.id for n in ast.walk(wf.node))
+    if not central or not copies:
+        chk.note("Z11: no tuple-keyed central block copied verbatim by MPS to_dict on this tree: mixed key types not established, rule not applicable")
+        return
+    sc = prog.module("yastn._split_combine_dict")
+    for f in sc.funcs.values():
+        par = A.enclosing_map(f.node)
+        for c in ast.walk(f.node):
+            if not (isinstance(c, ast.Call) and A.call_name(c) == "sorted" and c.args and isinstance(c.args[0], ast.Name)):
+                continue
+            if c.args[0].id not in f.params:
+                # sorted(<local>) -- follow one assignment `x = d.items()` / keys()
+                continue
+            has_key = any(k.arg == "key" for k in c.keywords)
+            cur, guarded = c, False
+            while cur in par:
+                cur = par[cur]
+                if isinstance(cur, ast.Try) and any(h.type is None or "TypeError" in A.text(h.type) or A.text(h.type) in ("Exception", "BaseException") for h in cur.handlers) \
+                        and any(c in list(ast.walk(b_)) for b_ in cur.body):
+                    guarded = True
+            ok = has_key or guarded
+            chk.verdict("Z11", (f, c), f"{f.name}: `{A.short(c, 50)}`", True if ok else False,
+                        f"{f.name}(): `{A.short(c, 40)}` orders the keys of a serialised dictionary with the default comparison; the dictionary `A` "
+                        f"written by MPS/MPO to_dict holds int keys (sites) and, for a state with a central block, the tuple key pC "
+                        f"({obc.relpath}:{central[0].lineno}): `sorted` raises TypeError, so such an MPS cannot go through "
+                        f"split_data_and_meta/combine_data_and_meta")
 
 
 def _z1(chk, f, cls_name, state, written, rename=None, extra_ok=None):
